@@ -85,3 +85,9 @@ Props/C09.vos Props/C09.vok Props/C09.required_vos: Props/C09.v Model/Term.vos M
 Props/C10.vo Props/C10.glob Props/C10.v.beautified Props/C10.required_vo: Props/C10.v Model/Term.vo Model/Unify.vo Model/Clause.vo Model/Machine.vo Proofs/Compile.vo
 Props/C10.vio: Props/C10.v Model/Term.vio Model/Unify.vio Model/Clause.vio Model/Machine.vio Proofs/Compile.vio
 Props/C10.vos Props/C10.vok Props/C10.required_vos: Props/C10.v Model/Term.vos Model/Unify.vos Model/Clause.vos Model/Machine.vos Proofs/Compile.vos
+Proofs/Cancel.vo Proofs/Cancel.glob Proofs/Cancel.v.beautified Proofs/Cancel.required_vo: Proofs/Cancel.v Model/Term.vo Model/Unify.vo Model/Clause.vo Model/Machine.vo Proofs/Promise.vo Proofs/Trampoline.vo
+Proofs/Cancel.vio: Proofs/Cancel.v Model/Term.vio Model/Unify.vio Model/Clause.vio Model/Machine.vio Proofs/Promise.vio Proofs/Trampoline.vio
+Proofs/Cancel.vos Proofs/Cancel.vok Proofs/Cancel.required_vos: Proofs/Cancel.v Model/Term.vos Model/Unify.vos Model/Clause.vos Model/Machine.vos Proofs/Promise.vos Proofs/Trampoline.vos
+Props/C13.vo Props/C13.glob Props/C13.v.beautified Props/C13.required_vo: Props/C13.v Model/Term.vo Model/Unify.vo Model/Clause.vo Model/Machine.vo Proofs/Promise.vo Proofs/Trampoline.vo Proofs/Cancel.vo Model/Boot.vo Model/MachineCheck.vo
+Props/C13.vio: Props/C13.v Model/Term.vio Model/Unify.vio Model/Clause.vio Model/Machine.vio Proofs/Promise.vio Proofs/Trampoline.vio Proofs/Cancel.vio Model/Boot.vio Model/MachineCheck.vio
+Props/C13.vos Props/C13.vok Props/C13.required_vos: Props/C13.v Model/Term.vos Model/Unify.vos Model/Clause.vos Model/Machine.vos Proofs/Promise.vos Proofs/Trampoline.vos Proofs/Cancel.vos Model/Boot.vos Model/MachineCheck.vos
